@@ -14,6 +14,7 @@ EXPLANATION = (
     "Equality of world contents and commutation of user code are not decided.")
 ASSUMPTIONS = ["user systems depend only on their own state and declared resources (the property's premise)", "rayon for_each semantics"]
 TRUSTED = ["rustc nightly MIR construction", "shred-facts driver", "shredlint analyses"]
+TECHNIQUE = 'static: sibling comparison of traversal skeletons of Stage::execute / execute_seq and dispatch_par / dispatch_seq (also across feature configurations) + imported C01 obligations'
 RULE_TEXT = "one obligation per sibling pair and per imported C01 obligation"
 
 
